@@ -76,11 +76,12 @@ Recv == /\ nrecv < MaxRecv /\ nops < MaxOps /\ st.rs # <<>>
                                                   /\ ~d.st.rs[i].en}
         /\ nrecv' = nrecv + 1 /\ nops' = nops + 1
 \* in the "paths" modes histories are creations and deliveries only
-\* a hostile datagram at socket level: empty or garbage payload, from a sender on another loopback address
+\* a hostile or degenerate datagram: empty or garbage payload, or a (legal) bundle nested hundreds of levels deep
+\* that exhausts the parser, from a sender on another loopback address
 \* whose source port NUMBER equals the library's (p = 1) or not; it invokes nothing and changes nothing
 HostileSenders == {[h |-> 2, p |-> 1]} \cup (IF Rich THEN {[h |-> 3, p |-> 1], [h |-> 2, p |-> 5001], [h |-> 1, p |-> 5002]} ELSE {})
 RecvHostile == /\ ~PathsMode /\ nrecv < MaxRecv /\ nops < MaxOps /\ st.rs # <<>>
-               /\ \E s \in HostileSenders, via \in Vias, k \in {"empty", "garbage"} :
+               /\ \E s \in HostileSenders, via \in Vias, k \in {"empty", "garbage", "deep"} :     \* deep: bundles nested hundreds of levels
                      op' = [op |-> "hostile", k |-> k, src |-> s, via |-> via]
                /\ st' = st /\ last' = <<>> /\ spent' = spent
                /\ nrecv' = nrecv + 1 /\ nops' = nops + 1
